@@ -49,12 +49,13 @@ function vmut(n, a, b) return ops(n, a, b) end
 function vmut_p(n, a, b) local ok, e = pcall(ops, n, a, b) return ok end
 function vcall(other, n, a, b) return contract.call(other, "mut", n, a, b) end
 function vnest(n, a, b) return vmut(n, a, b) end
+function callsview(n, a, b) return vmut(n, a, b) end
 function read() return v:get() end
 function noop() end
 function default() end
 function check_delegation(fname, n, a, b) local ok = pcall(ops, n, a, b) return not ok end
 function fd(n, a, b) end
-abi.register(mut, noop, fd)
+abi.register(mut, noop, fd, callsview)
 abi.register_view(vmut, vmut_p, vcall, vnest, read)
 abi.payable(default, noop, constructor)
 abi.fee_delegation(fd)
@@ -245,6 +246,10 @@ func run(c *vf.Ctx, ver int, eps map[string][]string) {
 		}},
 		{"view-tx:nested-view", func(op string, a interface{}) (bool, string, []string, bool) {
 			st, ret, bad, ok := viaTx(types.TxType_CALL, M, call("vnest", op, a), user.Addr)
+			return st == "ERROR" || st == "skipped", st + " " + ret, bad, ok
+		}},
+		{"normal-tx:function-calling-a-view", func(op string, a interface{}) (bool, string, []string, bool) {
+			st, ret, bad, ok := viaTx(types.TxType_CALL, M, call("callsview", op, a), user.Addr)
 			return st == "ERROR" || st == "skipped", st + " " + ret, bad, ok
 		}},
 		{"view-tx:pcall", func(op string, a interface{}) (bool, string, []string, bool) {
